@@ -229,9 +229,10 @@ class Harness:
                 # a src_* phase loads the saved environment and then runs the bashrc exchange (pkg_pretend suppresses it);
                 # the phase body is the EAPI default (a no-op here): what is exercised is request_bashrcs/path/next/end_request
                 variant, tmpdir = action[1], action[2]
+                # the daemon re-saves ${T}/environment after every src_* phase (and leaves a partial file when it is killed
+                # while doing so): start every exchange from a known one
                 envf = self.T + "/environment"
-                if not os.path.exists(envf):
-                    self.ebd.write(envf, 'S="%s"\nWORKDIR="%s"\n' % (self.T, self.T))
+                self.ebd.write(envf, 'S="%s"\nWORKDIR="%s"\n' % (self.T, self.T))
                 self.cur_bashrcs = self.bashrc_list(variant)
                 pkg = self.pkgs["cat/phases-1"]
                 env = self.processor.expected_ebuild_env(pkg, {}, depends=True)
